@@ -432,6 +432,42 @@ def gen_cases(ctx):
         add('option_' + choice, eng, seqs, rng.choice(CONTS), rng.choice(['coo_matrix', 'ndarray']), mode, mode[2] if isinstance(mode, list) else 1,
             queries_for(rng, seqs, gens.AA, rng.randint(1, 6)) if two else None, None, opts, model)
 
+    # -- hash_based beyond max_edits = 2 (Hamming mode on three-letter strings keeps the ball small) in both matrix forms (seeded change C10-r9m1: calls with
+    # max_edits > 2 handed to another engine without the output type)
+    for ot in ('ndarray', 'coo_matrix', 'triplets'):
+        add('hash_based_max_edits_3', 'hash_based', ['CAS', 'CDT', 'ACS', 'CAS', 'WWW'], 'list', ot, 'ham', 3)     # Hamming mode: substitutions only
+    # -- more than 2**16 triplets in one result (two expanded clones): the matrix forms still hold every one of them (seeded change C10-r9m3:
+    # triplets turned into matrix columns block by block, the last partial block dropped)
+    big = ['CASSLGF'] * 190 + ['CATTWGF'] * 190
+    import pyrepseq.nn as nn
+    for eng in ('symdel', 'kdtree'):
+        # (compared directly: the dense model is quadratic in the matrix size times the number of triplets)
+        fn = getattr(nn, eng)
+        tr = call_impl(lambda: fn(list(big), max_edits=1, output_type='triplets'))
+        co = call_impl(lambda: fn(list(big), max_edits=1, output_type='coo_matrix'))
+        de = call_impl(lambda: fn(list(big), max_edits=1, output_type='ndarray'))
+        ctx.count('more than 2**16 triplets in one result')
+        ctx.case(nontrivial_key=('big-result', eng))
+        why = None
+        if tr[0] != 'ok' or co[0] != 'ok' or de[0] != 'ok':
+            why = 'outcomes %s / %s / %s' % (tr[0], co[0], de[0])
+        else:
+            want = sorted((int(a), int(b), int(d_)) for a, b, d_ in tr[1])
+            exp_n = 2 * 190 * 189
+            c_ = co[1].tocoo()
+            stored = sorted((int(q_), int(r_), int(v_)) for r_, q_, v_ in zip(c_.row, c_.col, c_.data))
+            dense = np.zeros((380, 380))
+            for a, b, d_ in want:
+                dense[b, a] += d_
+            if len(want) != exp_n:
+                why = '%d triplets, expected %d (two clones of 190 identical sequences)' % (len(want), exp_n)
+            elif stored != want:
+                why = 'the sparse matrix stores %d entries, the triplet form of the same search has %d' % (len(stored), len(want))
+            elif np.asarray(de[1]).shape != (380, 380) or not np.array_equal(np.asarray(de[1], dtype=float), dense):
+                why = 'the dense matrix differs from the dense form of the triplets'
+        if why:
+            ctx.violation('property', '%s(two clones of 190 identical sequences each, max_edits=1): %s' % (eng, why),
+                          dict(family='more_than_65536_triplets', engine=eng), site='nn.%s[more than 65536 triplets]' % eng)
     # -- max_returns together with a second collection and a matrix output, on the engines that take a second collection: the matrix has the shape
     # (len(seqs), len(seqs2)) and encodes the triplets of the same call, whatever the engine makes of max_returns (seeded change C10-r8m3)
     for eng in ('nearest_neighbor', 'symdel'):
